@@ -54,7 +54,7 @@ static struct {
 	int busy;                   /* threads currently inside notify / new / free (the tree is only required to be settled when this is 0) */
 } S;
 
-enum { CV_OBS_TRUE = 0, CV_OBS_FALSE, CV_NOTIFIES, CV_FREES, CV_CHILDREN, CV_WAIT_SLEPT, CV_CANCELS, CV_FREED_WITH_CHILDREN, CV_EXPIRY_PAST_MISMATCH, CV_UNTIMED, CV_O4_CHECKED, CV_O5_CHECKED, CV_BORN_NOTIFIED, CV_IDLE };
+enum { CV_OBS_TRUE = 0, CV_OBS_FALSE, CV_NOTIFIES, CV_FREES, CV_CHILDREN, CV_WAIT_SLEPT, CV_CANCELS, CV_FREED_WITH_CHILDREN, CV_EXPIRY_PAST_MISMATCH, CV_UNTIMED, CV_O4_CHECKED, CV_O5_CHECKED, CV_BORN_NOTIFIED, CV_IDLE, CV_DIRECTED };
 
 static int is_anc_or_self (int a, int n) { for (; n >= 0; n = S.parent_of[n]) if (n == a) return (1); return (0); }
 
@@ -183,16 +183,23 @@ static void body (int tid) {
 static int in_doomed_subtree (int x) { return (S.doomed >= 0 && is_anc_or_self (S.doomed, x)); }
 
 static int setup (uint64_t seed) {
-	int x, t, i, maxt = (int) rt_param ("maxthreads", 4);
+	int x, t, i, maxt = (int) rt_param ("maxthreads", 4), kw[K_NKINDS], wsum = 0, directed;
 	(void) seed;
 	S.allow_free = (int) rt_param ("free", 1);
+	directed = 0;
 	memset (S.notify_done, 0, sizeof (S.notify_done)); memset (S.wait_on, 0, sizeof (S.wait_on)); S.busy = 0;
 	S.nbase = 3 + (int) rt_rand_n (NB - 2);
 	S.nthreads = 2 + (int) rt_rand_n ((unsigned) (maxt - 1));
+	/* directed "family" rounds (one in four when frees are allowed): a chain R(0) -> P(1) -> C(2) -> G(3) whose members P, C, G are
+	   owned by three different threads, each of which ends its program by (maybe notifying and) FREEING its note, while thread 0
+	   first notifies R or P: notification of an ancestor, disconnection of a grandchild and frees of the generations in between
+	   overlap in every order (the shape of D3, D6, D8 and of several seeded changes) */
+	directed = S.allow_free && S.nthreads >= 3 && rt_rand_n (4) == 0;
+	if (directed && S.nbase < 4) S.nbase = 4;
 	for (x = 0; x < NN; x++) { S.N[x] = NULL; S.parent_of[x] = -1; S.owner[x] = 0; S.alive[x] = 0; S.dlk[x] = 0; S.own_dl[x] = nsync_time_no_deadline; }
 	for (x = 0; x < S.nbase; x++) {
 		nsync_time m, ex; int p, depth = 0;
-		if (x > 0) { do { p = (int) rt_rand_n ((unsigned) x); depth = 0; for (i = p; i >= 0; i = S.parent_of[i]) depth++; } while (depth >= 3); S.parent_of[x] = p; }
+		if (x > 0) { do { p = (int) rt_rand_n ((unsigned) x); depth = 0; for (i = p; i >= 0; i = S.parent_of[i]) depth++; } while (depth >= 3); if (directed && x <= 3) p = x - 1; S.parent_of[x] = p; }
 		S.dlk[x] = (int) rt_rand_n (6); if (S.dlk[x] == 5) S.dlk[x] = 0;
 		S.own_dl[x] = kind_deadline (S.dlk[x], rt_mode_b () ? 200 + (int) rt_rand_n (20000) : 30000 + (int) rt_rand_n (400000));
 		S.N[x] = nsync_note_new (S.parent_of[x] < 0 ? NULL : S.N[S.parent_of[x]], S.own_dl[x]);
@@ -208,8 +215,14 @@ static int setup (uint64_t seed) {
 		rt_ev ((uint32_t) (S.parent_of[x] + 1) | (uint32_t) S.dlk[x] << 4);
 	}
 	if (S.allow_free) for (i = (int) rt_rand_n (4); i > 0; i--) { x = (int) rt_rand_n ((unsigned) S.nbase); if (!S.owner[x]) S.owner[x] = 1 + (int) rt_rand_n ((unsigned) S.nthreads); }
+	if (directed) { S.owner[0] = 0; S.owner[1] = 1; S.owner[2] = 2; S.owner[3] = 3; rt_cover (CV_DIRECTED); }
 	S.doomed = -1;
 	for (i = 0; i < 8 && S.doomed < 0; i++) { x = (int) rt_rand_n ((unsigned) S.nbase); if (!S.owner[x] && rt_rand_n (3)) S.doomed = x; }
+	/* swarm: half of the rounds draw their own operation weights (x0, x1, x1, x4), so that some rounds are dominated by
+	   notify / free / new-child traffic on a deep tree and others lack whole kinds of operation */
+	{ static const int base[K_NKINDS] = { 22, 20, 12, 8, 10, 15, 13 }; static const int factor[4] = { 0, 1, 1, 4 }; int plain = (rt_rand_n (2) == 0);
+	  wsum = 0; for (i = 0; i < K_NKINDS; i++) { kw[i] = base[i] * (plain ? 1 : factor[rt_rand_n (4)]); wsum += kw[i]; }
+	  if (wsum == 0) { kw[K_NOTIFY] = 22; wsum = 22; } }
 	for (t = 0; t < S.nthreads; t++) {
 		int n = 3 + (int) rt_rand_n (MAXOPS - 3), freed_own[NN];
 		memset (freed_own, 0, sizeof (freed_own));
@@ -219,7 +232,8 @@ static int setup (uint64_t seed) {
 			unsigned r = rt_rand_n (100);
 			int tries = 0;
 			memset (o, 0, sizeof (*o));
-			o->kind = r < 22 ? K_NOTIFY : r < 42 ? K_ISNOT : r < 54 ? K_WAIT_T : r < 62 ? K_WAIT_U : r < 72 ? K_CVCANCEL : r < 87 ? K_NEWCHILD : K_FREE;
+			(void) r;
+			{ int acc = 0, kk; unsigned pickw = rt_rand_n ((unsigned) wsum); o->kind = K_FREE; for (kk = 0; kk < K_NKINDS; kk++) { acc += kw[kk]; if (pickw < (unsigned) acc) { o->kind = kk; break; } } }
 			if (!S.allow_free && o->kind == K_FREE) o->kind = K_ISNOT;
 			if (o->kind == K_WAIT_U && t == 0) o->kind = K_WAIT_T;   /* thread 0 performs the notify the untimed waiters depend on */
 			o->dl_ns = rt_mode_b () ? (int) rt_rand_n (6000) : (int) rt_rand_n (200000);
@@ -230,6 +244,14 @@ static int setup (uint64_t seed) {
 			o->x = x;
 			if (o->kind == K_FREE && x >= 0) freed_own[x] = 1;
 			rt_ev ((uint32_t) (o->kind | (x + 1) << 4 | o->keep << 9 | o->dlk << 10 | o->sub << 13));
+		}
+		if (directed && t < 3) {
+			/* the program ends with [notify] + free of the thread's own member of the chain */
+			struct op *o = &S.prog[t][n - 2];
+			memset (o, 0, sizeof (*o)); o->kind = K_NOTIFY; o->x = (t == 0) ? (int) rt_rand_n (2) : (rt_rand_n (2) ? t + 1 : -1);
+			o = &S.prog[t][n - 1];
+			memset (o, 0, sizeof (*o)); o->kind = K_FREE; o->x = t + 1;
+			rt_ev ((uint32_t) (0x7000 | t << 4 | (S.prog[t][n - 2].x + 1)));
 		}
 		S.nops[t] = n;
 		if (t == 0 && S.doomed >= 0) { struct op *o = &S.prog[0][n]; memset (o, 0, sizeof (*o)); o->kind = K_NOTIFY; o->x = S.doomed; S.nops[0] = n + 1; }
@@ -308,6 +330,6 @@ static void pinit (void) {
 	rt_cover_name (CV_OBS_TRUE, "observations_notified"); rt_cover_name (CV_OBS_FALSE, "observations_not_notified"); rt_cover_name (CV_NOTIFIES, "notify_calls");
 	rt_cover_name (CV_FREES, "frees_by_workers"); rt_cover_name (CV_CHILDREN, "children_created_by_workers"); rt_cover_name (CV_WAIT_SLEPT, "waits_that_slept");
 	rt_cover_name (CV_CANCELS, "cv_waits_cancelled"); rt_cover_name (CV_FREED_WITH_CHILDREN, "frees_of_notes_with_live_children"); rt_cover_name (CV_EXPIRY_PAST_MISMATCH, "expiry_mismatch_already_past");
-	rt_cover_name (CV_UNTIMED, "untimed_waits"); rt_cover_name (CV_O4_CHECKED, "propagation_checks"); rt_cover_name (CV_O5_CHECKED, "untriggered_checks"); rt_cover_name (CV_BORN_NOTIFIED, "children_born_notified"); rt_cover_name (CV_IDLE, "idle_instants_checked");
+	rt_cover_name (CV_UNTIMED, "untimed_waits"); rt_cover_name (CV_O4_CHECKED, "propagation_checks"); rt_cover_name (CV_O5_CHECKED, "untriggered_checks"); rt_cover_name (CV_BORN_NOTIFIED, "children_born_notified"); rt_cover_name (CV_IDLE, "idle_instants_checked"); rt_cover_name (CV_DIRECTED, "directed_family_rounds");
 }
 rt_scenario rt_scen = { "notes", "C09", 4, &pinit, &setup, &body, &check, &teardown, &describe, NULL, &dump_state, NULL, &idle_check };
